@@ -232,7 +232,8 @@ func edStoreV(keys []eddsakeygen.LocalPartySaveData, pids tss.SortedPartyIDs) va
 // runECHistory executes ops on one loaded copy of keys; t is the threshold.
 func runECHistory(keys []ecdsakeygen.LocalPartySaveData, pids tss.SortedPartyIDs, t int, ops []hop) histResult {
 	var res histResult
-	q := tss.S256().Params().N
+	ec := keys[0].ECDSAPub.Curve()
+	q := ec.Params().N
 	pristine := reloadKeys(keys)
 	cur := reloadKeys(keys)
 	before := snapEC(cur)
@@ -246,10 +247,10 @@ func runECHistory(keys []ecdsakeygen.LocalPartySaveData, pids tss.SortedPartyIDs
 			handed := sk
 			if o.kind == "signhd" {
 				handed = reloadKeys(sk)
-				gd := crypto.ScalarBaseMult(tss.S256(), new(big.Int).Mod(o.delta, q))
+				gd := crypto.ScalarBaseMult(ec, new(big.Int).Mod(o.delta, q))
 				child, err := sk[0].ECDSAPub.Add(gd)
 				if err == nil {
-					err = ecdsasign.UpdatePublicKeyAndAdjustBigXj(o.delta, handed, &ecdsa.PublicKey{Curve: tss.S256(), X: child.X(), Y: child.Y()}, tss.S256())
+					err = ecdsasign.UpdatePublicKeyAndAdjustBigXj(o.delta, handed, &ecdsa.PublicKey{Curve: ec, X: child.X(), Y: child.Y()}, ec)
 				}
 				if err != nil {
 					res.outs = append(res.outs, val.Err)
@@ -257,7 +258,7 @@ func runECHistory(keys []ecdsakeygen.LocalPartySaveData, pids tss.SortedPartyIDs
 				}
 			}
 			handedBefore := snapEC(handed)
-			so := signOpts{msg: o.m, seed: fmt.Sprintf("c20-%d", o.seed), kdd: o.delta}
+			so := signOpts{msg: o.m, seed: fmt.Sprintf("c20-%d", o.seed), kdd: o.delta, ec: ec}
 			if o.kind != "abort" {
 				so.first = make([][]*big.Int, len(sp))
 				for j := range sp {
@@ -364,7 +365,7 @@ func init() {
 		}
 		t := int(val.AsInt64(a[2]))
 		var res histResult
-		if val.AsAtom(a[0]) == "secp256k1" {
+		if val.AsAtom(a[0]) == "secp256k1" || val.AsAtom(a[0]) == "p256" {
 			keys, pids, _ := ecKeysByRef(val.AsAtom(a[1]))
 			res = runECHistory(keys, pids, t, ops)
 		} else {
@@ -394,9 +395,18 @@ func reportHist(r *vc.Run, res histResult, line string) {
 }
 
 func c20HistoriesECDSA(r *vc.Run, g rng) {
-	q := tss.S256().Params().N
 	keys, pids := fixtures() // (5,2)
-	for h := 0; h < r.Pick(2, 8); h++ {
+	c20HistoriesOn(r, g, "secp256k1", "fixture", keys, pids, 2, r.Pick(2, 8))
+	// a key on a curve the application brings itself (NIST P-256): (3,1), generated in the harness
+	pk, pp, pt := ecKeysByRef("p256:kg:3:1")
+	c20HistoriesOn(r, g, "p256", "p256:kg:3:1", pk, pp, pt, r.Pick(1, 3))
+}
+
+func c20HistoriesOn(r *vc.Run, g rng, cn, keyref string, keys []ecdsakeygen.LocalPartySaveData, pids tss.SortedPartyIDs, t, count int) {
+	ec := curveByName(cn)
+	q := ec.Params().N
+	n := len(keys)
+	for h := 0; h < count; h++ {
 		var ops []hop
 		for op := 0; op < r.Pick(5, 9); op++ {
 			kind := []string{"sign", "sign", "signhd", "reload", "abort", "abort", "sign", "signhd"}[r.Rng.Intn(8)]
@@ -406,9 +416,9 @@ func c20HistoriesECDSA(r *vc.Run, g rng) {
 			if op == 1 {
 				kind = "signhd"
 			}
-			o := hop{kind: kind, signers: randSubset(r.Rng, 5, 3+r.Rng.Intn(3)), m: g.below(q), seed: r.Rng.Int63n(1 << 40)}
-			if h%2 == 1 && op >= 2 && op%2 == 0 {
-				o.m, o.signers = big.NewInt(424242), []int{0, 1, 2} // the same message and signers again
+			o := hop{kind: kind, signers: randSubset(r.Rng, n, t+1+r.Rng.Intn(n-t)), m: g.below(q), seed: r.Rng.Int63n(1 << 40)}
+			if (h%2 == 1 || cn != "secp256k1") && op >= 2 && op%2 == 0 {
+				o.m, o.signers = big.NewInt(424242), []int{0, 1, 2}[:t+1] // the same message and signers again
 			}
 			switch kind {
 			case "abort":
@@ -421,15 +431,15 @@ func c20HistoriesECDSA(r *vc.Run, g rng) {
 				o.gammas = append(o.gammas, add(g.below(add(q, -1)), 1))
 			}
 			ops = append(ops, o)
-			r.Dist["history/ecdsa/"+kind+o.mode]++
+			r.Dist["history/ecdsa/"+cn+"/"+kind+o.mode]++
 		}
-		res := runECHistory(keys, pids, 2, ops)
+		res := runECHistory(keys, pids, t, ops)
 		opsV := make([]val.V, len(ops))
 		for i, o := range ops {
 			opsV[i] = o.V()
 		}
-		args := []val.V{val.A("secp256k1"), val.A("fixture"), val.I64(2), ecStoreV(reloadKeys(keys), pids), val.L(opsV...)}
-		r.Record("history/ecdsa", true, "key_history", args, val.L(res.final, val.L(res.outs...)))
+		args := []val.V{val.A(cn), val.A(keyref), val.I64(int64(t)), ecStoreV(reloadKeys(keys), pids), val.L(opsV...)}
+		r.Record("history/ecdsa/"+cn, true, "key_history", args, val.L(res.final, val.L(res.outs...)))
 		reportHist(r, res, vc.Line("key_history", args))
 		// direct oracle on every completed session: standard verification under the right key, not under the parent
 		for i, o := range ops {
@@ -441,12 +451,12 @@ func c20HistoriesECDSA(r *vc.Run, g rng) {
 					digest := make([]byte, 32)
 					o.m.FillBytes(digest)
 					if o.kind == "signhd" {
-						gd := crypto.ScalarBaseMult(tss.S256(), o.delta)
+						gd := crypto.ScalarBaseMult(ec, o.delta)
 						ch, _ := keys[0].ECDSAPub.Add(gd)
 						if ecdsa.Verify(pub, digest, rr, ss) {
 							r.Violate("hd-verifies-under-parent", "a signature made with a derivation offset verifies under the parent key", vc.Line("key_history", args))
 						}
-						pub = &ecdsa.PublicKey{Curve: tss.S256(), X: ch.X(), Y: ch.Y()}
+						pub = &ecdsa.PublicKey{Curve: ec, X: ch.X(), Y: ch.Y()}
 					}
 					if !ecdsa.Verify(pub, digest, rr, ss) {
 						r.Violate("ecdsa-invalid-signature", fmt.Sprintf("crypto/ecdsa rejects the signature of op %d of a history", i), vc.Line("key_history", args))
